@@ -152,8 +152,12 @@ class StepOperationExecutor(OperationExecutor[T]):
         ):
             return CheckResult.create_is_ready_to_execute(checkpointed_result)
 
-        # Create START checkpoint if not exists
-        if not checkpointed_result.is_existent():
+        # Create START checkpoint if not exists. With AtMostOncePerRetry every new attempt (including a
+        # retry attempt whose record is READY) must have its START persisted before the function is entered.
+        is_at_most_once: bool = (
+            self.config.step_semantics is StepSemantics.AT_MOST_ONCE_PER_RETRY
+        )
+        if not checkpointed_result.is_existent() or is_at_most_once:
             start_operation: OperationUpdate = OperationUpdate.create_step_start(
                 identifier=self.operation_identifier,
             )
